@@ -5,39 +5,75 @@ package c10
 // Reference model for C10 (sequential part): a cache-free dispatcher over a
 // plain method table, written without looking at how slip stores methods.
 // It imports nothing from slip so that the concurrent part can reuse it.
+//
+// The dispatcher is an interpreter of the (few) method body kinds the harness
+// writes: it produces the ordered trace and the value a call must have, for a
+// top-level call and for the calls method bodies make themselves (a second
+// call-next-method, call-next-method with other arguments, a nested call of
+// the generic function from inside a method).
 
 import (
 	"fmt"
+	"math/big"
 	"sort"
+	"strconv"
 	"strings"
 )
 
 // Method body variants. The slot a variant occupies is slotOf(variant).
 //
 //	p primary          b :before          a :after
-//	w :around, calls (call-next-method args...) and wraps the value
+//	w :around, calls (call-next-method args...) once and wraps the value
 //	s :around that does NOT call call-next-method
 //	n :around that asks (next-method-p) first, then calls call-next-method
-const variants = "pbawsn"
+//	d :around that calls call-next-method TWICE (both values in its value)
+//	l :around that asks (next-method-p) and then calls call-next-method twice inside a loop
+//	m :around that calls call-next-method with DIFFERENT arguments of the same classes ((+ x 1))
+//	o :around that calls a bare (call-next-method) (the arguments of the call are passed on)
+//	g :around that first calls the generic function itself with another class tuple (the configuration's sink), then continues
+//	h primary that calls the generic function itself with the sink tuple
+//	x primary that calls call-next-method   (slip: documented error, below an :around method and without one)
+//	y :before that calls call-next-method   (same)
+//	z :after that calls call-next-method    (same)
+const variants = "pbawsndlmgohxyz"
 
 func slotOf(variant byte) int {
 	switch variant {
-	case 'p':
+	case 'p', 'x', 'h', 'E': // E = the default method of a built-in generic function (signals an error, traces nothing)
 		return 0
-	case 'b':
+	case 'b', 'y':
 		return 1
-	case 'a':
+	case 'a', 'z':
 		return 2
 	}
-	return 3 // w, s, n share the :around slot
+	return 3 // every :around kind shares the :around slot
 }
 
+// classicVariant: the body kinds of the first rounds; a call that involves only these is classified by the refined
+// (qualifier by qualifier) comparison of seq.go.
+func classicVariant(v byte) bool { return strings.IndexByte("pbawsn", v) >= 0 }
+
 var slotNames = [4]string{"primary", "before", "after", "around"}
+
+// variantFeature names the interaction a body kind adds (hit counter + part of the signature).
+var variantFeature = map[byte]string{
+	'd': "around-calls-next-twice",
+	'l': "around-calls-next-in-loop-after-next-method-p",
+	'm': "around-calls-next-with-other-arguments",
+	'o': "around-calls-bare-call-next-method",
+	'g': "around-calls-generic-function-recursively",
+	'h': "primary-calls-generic-function-recursively",
+	'x': "primary-calls-call-next-method",
+	'y': "before-calls-call-next-method",
+	'z': "after-calls-call-next-method",
+	'E': "built-in-default-method",
+}
 
 type mdef struct {
 	variant byte
 	gen     int    // how many times this (slot, specialiser tuple) had been defined when this body was installed
 	src     string // the tuple as written: "u" = parameter written without a specialiser (class t)
+	viaGF   bool   // defined by a (:method ...) option of defgeneric
 }
 
 // tag is the name the body traces; it carries the tuple AS WRITTEN.
@@ -95,6 +131,20 @@ func (t table) count() (n int) {
 	return
 }
 
+// slots lists "slotletter:tuple" of every method, sorted (compared with the implementation's table after defgeneric).
+func (t table) slots() []string {
+	var out []string
+	for k, e := range t {
+		for s, d := range e {
+			if d != nil {
+				out = append(out, fmt.Sprintf("%c:%s", "pbaw"[s], k))
+			}
+		}
+	}
+	sort.Strings(out)
+	return out
+}
+
 func (t table) String() string {
 	keys := make([]string, 0, len(t))
 	for k := range t {
@@ -121,36 +171,162 @@ type refOpts struct {
 	aroundSkipSecond bool // every second applicable :around is skipped
 	primaryLeast     bool // the least specific primary is chosen
 	stopRunsInner    bool // an :around that does not call call-next-method still lets the rest run
+	// body-kind mutants (round 8)
+	secondCnmSkips      bool // a second call-next-method from one :around continues one :around further down (cursor kept in a shared location)
+	primaryCnmReruns    bool // call-next-method from a primary/daemon BELOW an :around runs the inner methods again instead of signalling an error
+	cnmIgnoresArgs      bool // call-next-method passes the original arguments on, not the ones it was given
+	nestedClobbersOuter bool // after a nested call of the generic function the outer :around continues with the inner methods, skipping the remaining :around methods
+	cnmLeaksToOuter     bool // call-next-method from a primary reached through a NESTED call (no :around applicable there) continues the OUTER call's chain
+	tailDecides         bool // the &optional / &key / &rest argument takes part in the dispatch (a method is not applicable when it is given)
 	// history mutants (handled in model.call)
 	staleOnRemove            bool // effective-method memo not cleared by remove-method
 	staleOnNewKey            bool // memo cleared by defmethod only when the specialiser tuple already had an entry
 	staleDefault             bool // single-method fast path not recomputed by remove-method
 	staleOnReplace           bool // redefining an existing method keeps serving the old body from the memo
 	removeKeepsUnspecialised bool // remove-method is a no-op when the tuple was first defined with an unspecialised parameter
+	regenIgnored             bool // defgeneric evaluated again changes nothing, not even the (:method ...) option is installed
 }
 
 // expectation kinds
 const (
 	exStrict  = "strict"  // an applicable primary exists: trace and value are determined
 	exNone    = "none"    // no applicable method at all: an error, nothing runs
-	exLenient = "lenient" // applicable daemons/arounds but no primary: the statement is silent (S2)
+	exLenient = "lenient" // applicable daemons/arounds but no primary (in the call or in a nested call): the statement is silent (S2)
+	exError   = "error"   // a body signals the documented error (call-next-method outside an :around method) or a nested call has no applicable method: an error after the trace prefix
 )
 
 type expect struct {
 	kind  string
 	trace []string
 	value string
-	// applicable tags by slot, most specific first (for classification)
+	// errWhat: for exError, what raises the error ("cnm-from-primary:below-around", "cnm-from-before:no-around", "nested-no-applicable-method" ...)
+	errWhat string
+	// applicable tags by slot, most specific first, of the TOP-LEVEL call (for classification)
 	applicable [4][]string
+	// every tag that is applicable in the top-level call or in a nested call
+	mayRun map[string]bool
+	// classic: only the body kinds p b a w s n are applicable and the configuration adds nothing to the bodies
+	classic bool
+	// features of the applicable bodies (sorted, for counters and signatures)
+	features []string
+	nested   bool // a nested call of the generic function was made
 }
 
 func (e expect) digest() string {
-	return e.kind + "|" + strings.Join(e.trace, " ") + "|" + e.value
+	return e.kind + "|" + strings.Join(e.trace, " ") + "|" + e.value + "|" + e.errWhat
 }
 
-// dispatch computes what a call with the given class precedence lists (one per
-// required argument, most specific class first) must do under table t.
-func dispatch(t table, cpls [][]string, o refOpts) (ex expect) {
+// ------------------------------------------------------------------ argument values
+
+// argVal is one argument: its kind letter (see argKinds in seq.go) and how
+// often (+ x 1) was applied to it on the way down an :around chain.
+type argVal struct {
+	kind string
+	bump int
+}
+
+var bigArg, _ = new(big.Int).SetString("12345678901234567890123", 10)
+
+// show renders the argument the way lisp.Show renders the real object.
+func (a argVal) show() string {
+	switch a.kind {
+	case "f":
+		return strconv.Itoa(1 + a.bump)
+	case "B":
+		return "B" + new(big.Int).Add(bigArg, big.NewInt(int64(a.bump))).String()
+	case "r":
+		return fmt.Sprintf("R%d/2", 1+2*a.bump)
+	case "d":
+		return "d" + strconv.FormatFloat(1.5+float64(a.bump), 'g', -1, 64)
+	case "s":
+		return "q"
+	case "1", "2", "3", "4":
+		return "#<vc" + a.kind + ">"
+	case "S", "T":
+		return "#<" + map[string]string{"S": "sc1", "T": "sc2"}[a.kind] + ">"
+	}
+	return "?" + a.kind
+}
+
+// callArgs: the required arguments and whether the extra (&optional / &key / &rest) arguments are given.
+type callArgs struct {
+	req   []argVal
+	extra bool
+}
+
+func parseCall(spec string) (c callArgs) {
+	if strings.HasSuffix(spec, "+") {
+		c.extra = true
+		spec = strings.TrimSuffix(spec, "+")
+	}
+	for _, k := range strings.Split(spec, ",") {
+		c.req = append(c.req, argVal{kind: k})
+	}
+	return
+}
+
+func (c callArgs) shown() string {
+	parts := make([]string, len(c.req))
+	for i, a := range c.req {
+		parts[i] = a.show()
+	}
+	return strings.Join(parts, " ")
+}
+
+func (c callArgs) bumped() callArgs {
+	out := callArgs{extra: c.extra}
+	for _, a := range c.req {
+		out.req = append(out.req, argVal{a.kind, a.bump + 1})
+	}
+	return out
+}
+
+// refCfg is what the reference needs to know about a configuration.
+type refCfg struct {
+	cpl         func(kind string) []string // class precedence list of an argument kind, most specific first
+	tail        string                     // "", "opt", "key", "rest": what follows the required parameters
+	argsInTrace bool                       // primary and daemons also trace (list args...) and the primary returns (tag args...)
+	sink        string                     // argument kinds of the nested call made by g / h bodies
+	depthLimit  int                        // the guard of x / y / z bodies (they return <tag>-runaway beyond it)
+}
+
+// tailShown renders the value of the &optional / &key / &rest parameter seen by a body.
+func (rc *refCfg) tailShown(extra bool) string {
+	if !extra {
+		return "nil"
+	}
+	if rc.tail == "rest" {
+		return "(7 8)"
+	}
+	return "7"
+}
+
+// ------------------------------------------------------------------ the dispatcher
+
+type abortErr struct{ what string }
+
+type evaluator struct {
+	t       table
+	rc      *refCfg
+	o       refOpts
+	trace   []string
+	lenient bool
+	nested  bool
+	depth   int             // value of the depth guard counter
+	conts   []func() string // continuations of the :around methods that made a nested call (for the leak mutant)
+	mayRun  map[string]bool
+	feats   map[string]bool
+	classic bool
+	level   int
+}
+
+type am struct {
+	d   *mdef
+	tag string
+}
+
+// applicableMethods returns the applicable methods by slot, most specific first.
+func applicableMethods(t table, cpls [][]string, o refOpts) (bySlot [4][]am) {
 	type cand struct {
 		spec string
 		rank []int
@@ -198,31 +374,73 @@ func dispatch(t table, cpls [][]string, o refOpts) (ex expect) {
 		}
 		return false
 	})
-	type am struct {
-		d   *mdef
-		tag string
-	}
-	var bySlot [4][]am
 	for _, c := range cands {
 		for s, d := range c.e {
 			if d != nil {
 				bySlot[s] = append(bySlot[s], am{d, d.tag(c.spec)})
-				ex.applicable[s] = append(ex.applicable[s], d.tag(c.spec))
+			}
+		}
+	}
+	return
+}
+
+func (ev *evaluator) emit(s string) { ev.trace = append(ev.trace, s) }
+
+func (ev *evaluator) note(d *mdef) {
+	if !classicVariant(d.variant) {
+		ev.classic = false
+		ev.feats[variantFeature[d.variant]] = true
+	}
+}
+
+// cnmOutside: a primary or daemon body calls call-next-method.
+func (ev *evaluator) cnmOutside(m am, slot int, args callArgs, arounds int, rerun func() string) string {
+	where := "no-around"
+	if 0 < arounds {
+		where = "below-around"
+	}
+	ev.depth++
+	if ev.rc.depthLimit < ev.depth {
+		return m.tag + "-runaway"
+	}
+	switch {
+	case ev.o.primaryCnmReruns && 0 < arounds:
+		return "(" + m.tag + " " + rerun() + ")"
+	case ev.o.cnmLeaksToOuter && arounds == 0 && 0 < len(ev.conts):
+		return "(" + m.tag + " " + ev.conts[len(ev.conts)-1]() + ")"
+	}
+	panic(abortErr{"cnm-from-" + slotNames[slot] + ":" + where})
+}
+
+// call dispatches one call of the generic function and returns its value. It
+// panics with abortErr when the call ends in an error.
+func (ev *evaluator) call(args callArgs, top *expect) string {
+	cpls := make([][]string, len(args.req))
+	for i, a := range args.req {
+		cpls[i] = ev.rc.cpl(a.kind)
+	}
+	bySlot := applicableMethods(ev.t, cpls, ev.o)
+	if ev.o.tailDecides && args.extra {
+		bySlot = [4][]am{}
+	}
+	for s := 0; s < 4; s++ {
+		for _, m := range bySlot[s] {
+			ev.mayRun[m.tag] = true
+			ev.note(m.d)
+			if top != nil {
+				top.applicable[s] = append(top.applicable[s], m.tag)
 			}
 		}
 	}
 	total := len(bySlot[0]) + len(bySlot[1]) + len(bySlot[2]) + len(bySlot[3])
-	switch {
-	case total == 0:
-		ex.kind = exNone
-		return
-	case len(bySlot[0]) == 0:
-		ex.kind = exLenient
-	default:
-		ex.kind = exStrict
+	if total == 0 {
+		panic(abortErr{"no-applicable-method"})
+	}
+	if len(bySlot[0]) == 0 {
+		ev.lenient = true
 	}
 	arounds := bySlot[3]
-	if o.aroundSkipSecond {
+	if ev.o.aroundSkipSecond {
 		var kept []am
 		for i, a := range arounds {
 			if i%2 == 0 {
@@ -231,54 +449,193 @@ func dispatch(t table, cpls [][]string, o refOpts) (ex expect) {
 		}
 		arounds = kept
 	}
-	inner := func() string {
+	annotate := func(a callArgs) {
+		if ev.rc.argsInTrace {
+			ev.emit("(" + a.shown() + ")")
+		}
+	}
+	var inner func(a callArgs) string
+	inner = func(a callArgs) string {
 		for _, b := range bySlot[1] {
-			ex.trace = append(ex.trace, b.tag)
+			ev.emit(b.tag)
+			annotate(a)
+			if b.d.variant == 'y' {
+				_ = ev.cnmOutside(b, 1, a, len(arounds), func() string { return inner(a) })
+			}
 		}
 		val := "nil"
 		if 0 < len(bySlot[0]) {
 			p := bySlot[0][0]
-			if o.primaryLeast {
+			if ev.o.primaryLeast {
 				p = bySlot[0][len(bySlot[0])-1]
 			}
-			ex.trace = append(ex.trace, p.tag)
-			val = p.tag
-		}
-		if o.aftersForward {
-			for _, a := range bySlot[2] {
-				ex.trace = append(ex.trace, a.tag)
+			if p.d.variant == 'E' {
+				panic(abortErr{"builtin-default"})
 			}
-		} else {
+			ev.emit(p.tag)
+			annotate(a)
+			switch p.d.variant {
+			case 'x':
+				val = ev.cnmOutside(p, 0, a, len(arounds), func() string { return inner(a) })
+			case 'h':
+				val = "(" + p.tag + " " + ev.nestedCall(nil) + ")"
+			default:
+				switch {
+				case ev.rc.argsInTrace:
+					val = "(" + p.tag + " " + a.shown() + ")"
+				case ev.rc.tail != "":
+					val = "(" + p.tag + " " + ev.rc.tailShown(a.extra) + ")"
+				default:
+					val = p.tag
+				}
+			}
+		}
+		afters := bySlot[2]
+		if !ev.o.aftersForward {
+			afters = nil
 			for i := len(bySlot[2]) - 1; 0 <= i; i-- {
-				ex.trace = append(ex.trace, bySlot[2][i].tag)
+				afters = append(afters, bySlot[2][i])
+			}
+		}
+		for _, m := range afters {
+			ev.emit(m.tag)
+			annotate(a)
+			if m.d.variant == 'z' {
+				_ = ev.cnmOutside(m, 2, a, len(arounds), func() string { return inner(a) })
 			}
 		}
 		return val
 	}
-	var run func(i int) string
-	run = func(i int) string {
+	var run func(i int, a callArgs) string
+	run = func(i int, a callArgs) string {
 		if len(arounds) <= i {
-			return inner()
+			return inner(a)
 		}
-		a := arounds[i]
-		ex.trace = append(ex.trace, a.tag+"-in")
-		switch a.d.variant {
+		m := arounds[i]
+		ev.emit(m.tag + "-in")
+		hasNext := i+1 < len(arounds) || 0 < len(bySlot[0])+len(bySlot[1])+len(bySlot[2])
+		switch m.d.variant {
 		case 's':
-			if o.stopRunsInner {
-				_ = run(i + 1)
+			if ev.o.stopRunsInner {
+				_ = run(i+1, a)
 			}
-			return a.tag
+			return m.tag
 		case 'n':
-			hasNext := i+1 < len(arounds) || 0 < len(bySlot[0])+len(bySlot[1])+len(bySlot[2])
 			if !hasNext {
-				return a.tag + "-none"
+				return m.tag + "-none"
 			}
+		case 'd':
+			v1 := run(i+1, a)
+			second := i + 1
+			if ev.o.secondCnmSkips {
+				second = i + 2
+			}
+			v2 := run(second, a)
+			ev.emit(m.tag + "-out")
+			return "(" + m.tag + " " + v1 + " " + v2 + ")"
+		case 'l':
+			acc := "nil"
+			if hasNext {
+				v1 := run(i+1, a)
+				second := i + 1
+				if ev.o.secondCnmSkips {
+					second = i + 2
+				}
+				v2 := run(second, a)
+				acc = "(" + v2 + " " + v1 + ")"
+			}
+			ev.emit(m.tag + "-out")
+			return "(" + m.tag + " " + acc + ")"
+		case 'm':
+			next := a.bumped()
+			if ev.o.cnmIgnoresArgs {
+				next = a
+			}
+			v := run(i+1, next)
+			ev.emit(m.tag + "-out")
+			return "(" + m.tag + " " + a.shown() + " " + v + ")"
+		case 'g':
+			r := ev.nestedCall(func() string { return run(i+1, a) })
+			var v string
+			if ev.o.nestedClobbersOuter {
+				v = inner(a)
+			} else {
+				v = run(i+1, a)
+			}
+			ev.emit(m.tag + "-out")
+			return "(" + m.tag + " " + r + " " + v + ")"
 		}
-		v := run(i + 1)
-		ex.trace = append(ex.trace, a.tag+"-out")
-		return "(" + a.tag + " " + v + ")"
+		// w, o, n (with a next method)
+		v := run(i+1, a)
+		ev.emit(m.tag + "-out")
+		return "(" + m.tag + " " + v + ")"
 	}
-	ex.value = run(0)
+	return run(0, args)
+}
+
+// nestedCall: a body calls the generic function itself with the sink tuple.
+func (ev *evaluator) nestedCall(cont func() string) string {
+	ev.nested = true
+	ev.level++
+	if 8 < ev.level {
+		panic("reference: nested calls do not terminate (bad configuration)")
+	}
+	if cont != nil {
+		ev.conts = append(ev.conts, cont)
+		defer func() { ev.conts = ev.conts[:len(ev.conts)-1] }()
+	}
+	defer func() { ev.level-- }()
+	defer func() {
+		if r := recover(); r != nil {
+			if ab, ok := r.(abortErr); ok && ab.what == "no-applicable-method" {
+				panic(abortErr{"nested-no-applicable-method"})
+			}
+			panic(r)
+		}
+	}()
+	return ev.call(parseCall(ev.rc.sink), nil)
+}
+
+// dispatch computes what a call must do under table t.
+func dispatch(t table, rc *refCfg, args callArgs, o refOpts) (ex expect) {
+	ev := &evaluator{t: t, rc: rc, o: o, mayRun: map[string]bool{}, feats: map[string]bool{}, classic: true}
+	if rc.tail != "" || rc.argsInTrace {
+		ev.classic = false
+	}
+	func() {
+		defer func() {
+			if r := recover(); r != nil {
+				ab, ok := r.(abortErr)
+				if !ok {
+					panic(r)
+				}
+				if ab.what == "no-applicable-method" {
+					ex.kind = exNone
+				} else {
+					ex.kind = exError
+					ex.errWhat = ab.what
+				}
+			}
+		}()
+		ex.value = ev.call(args, &ex)
+		ex.kind = exStrict
+	}()
+	ex.trace = ev.trace
+	ex.mayRun = ev.mayRun
+	ex.classic = ev.classic
+	ex.nested = ev.nested
+	for f := range ev.feats {
+		ex.features = append(ex.features, f)
+	}
+	sort.Strings(ex.features)
+	if ex.kind != exNone && ev.lenient {
+		// somewhere a call without applicable primary was dispatched: what slip does there is not
+		// constrained by the statement, so nothing that follows it is either
+		ex.kind = exLenient
+	}
+	if ex.kind == exNone {
+		ex.trace = nil
+	}
 	return
 }
 
@@ -286,9 +643,9 @@ func dispatch(t table, cpls [][]string, o refOpts) (ex expect) {
 
 // op is one parsed history operation.
 type op struct {
-	kind    byte   // 'd' defmethod, 'r' remove-method, 'c' call
+	kind    byte   // 'd' defmethod, 'r' remove-method, 'c' call, 'G' defgeneric again, 'M' defgeneric again with a (:method ...) option
 	variant byte   // d: body variant; r: slot letter (p b a w)
-	spec    string // d, r: specialiser tuple; c: argument kind tuple
+	spec    string // d, r, M: specialiser tuple; c: argument kind tuple
 }
 
 func parseOp(s string) (o op, ok bool) {
@@ -298,13 +655,22 @@ func parseOp(s string) (o op, ok bool) {
 		return op{kind: parts[0][0], variant: parts[1][0], spec: parts[2]}, true
 	case len(parts) == 2 && parts[0] == "c":
 		return op{kind: 'c', spec: parts[1]}, true
+	case len(parts) == 1 && parts[0] == "G":
+		return op{kind: 'G'}, true
+	case len(parts) == 2 && parts[0] == "M":
+		return op{kind: 'M', variant: 'p', spec: parts[1]}, true
 	}
 	return op{}, false
 }
 
 func (o op) String() string {
-	if o.kind == 'c' {
+	switch o.kind {
+	case 'c':
 		return "c:" + o.spec
+	case 'G':
+		return "G"
+	case 'M':
+		return "M:" + o.spec
 	}
 	return fmt.Sprintf("%c:%c:%s", o.kind, o.variant, o.spec)
 }
@@ -313,6 +679,7 @@ func (o op) String() string {
 // earlier version of it (used to recognise a stale view in what slip did).
 type model struct {
 	cfg      *config
+	rc       *refCfg
 	t        table
 	gens     map[string]int // slot letter + spec -> definitions so far
 	versions []version      // table after each mutation, oldest first; versions[0] = empty table
@@ -322,18 +689,25 @@ type model struct {
 	deflt              *expect
 	callsSinceMutation int
 	firstSrc           map[string]string // specialiser tuple -> tuple as written by the defmethod that created the entry
-	gone               map[string]string // tag of a body no longer in the table -> "removed" | "replaced"
+	gone               map[string]string // tag of a body no longer in the table -> "removed" | "replaced" | "removed-u" | "wiped"
+	// regenAlt: after a defgeneric evaluated again, the other admissible table (see applyRegen)
+	regenAlt table
 }
 
 type version struct {
 	t    table
-	what string // "" for the initial table, else "defmethod" / "remove-method"
+	what string // "" for the initial table, else "defmethod" / "remove-method" / "defgeneric"
 }
 
 func newModel(cfg *config, o refOpts) *model {
-	m := &model{cfg: cfg, t: table{}, gens: map[string]int{}, opts: o, memo: map[string]expect{},
+	m := &model{cfg: cfg, rc: cfg.refCfg(), t: table{}, gens: map[string]int{}, opts: o, memo: map[string]expect{},
 		firstSrc: map[string]string{}, gone: map[string]string{}}
-	m.versions = []version{{t: table{}}}
+	for spec, v := range cfg.preset {
+		// methods the generic function has before the history starts (a built-in generic function)
+		m.t[spec] = &entry{}
+		m.t[spec][slotOf(v)] = &mdef{variant: v, gen: 0, src: spec}
+	}
+	m.versions = []version{{t: m.t.clone()}}
 	return m
 }
 
@@ -341,6 +715,14 @@ func newModel(cfg *config, o refOpts) *model {
 func (m *model) present(slot int, spec string) bool {
 	e := m.t[normSpec(spec)]
 	return e != nil && e[slot] != nil
+}
+
+// removable: present and not one of the built-in methods of the configuration.
+func (m *model) removable(slot int, spec string) bool {
+	if !m.present(slot, spec) {
+		return false
+	}
+	return m.t[normSpec(spec)][slot].gen != 0
 }
 
 // apply a mutation to the model. It returns false when the operation is not
@@ -407,8 +789,113 @@ func (m *model) apply(o op) bool {
 			m.updateDefault()
 		}
 		m.callsSinceMutation = 0
+	case 'G', 'M':
+		m.applyRegen(o)
 	}
 	return true
+}
+
+// applyRegen: defgeneric is evaluated again. The statement does not say what
+// becomes of the methods and slip's defgeneric documentation is silent, so two
+// tables are admissible (S2): the Common Lisp one (methods defined by defmethod
+// are kept, methods defined by an earlier defgeneric's (:method ...) options are
+// removed, the new option's method is added) and the "new generic function"
+// one (only the new option's method). m.t is set to the first, m.regenAlt to
+// the second; the driver reads the implementation's table right after the
+// operation and calls chooseRegen.
+func (m *model) applyRegen(o op) {
+	keep := table{}
+	for k, e := range m.t {
+		ce := entry{}
+		for s, d := range e {
+			if d != nil && !d.viaGF {
+				ce[s] = d
+			}
+		}
+		if ce != (entry{}) {
+			keep[k] = &ce
+		}
+	}
+	fresh := table{}
+	if m.opts.regenIgnored {
+		keep, fresh = m.t.clone(), m.t.clone()
+	} else if o.kind == 'M' {
+		key := normSpec(o.spec)
+		gk := fmt.Sprintf("%d:%s", 0, key)
+		m.gens[gk]++
+		d := &mdef{variant: 'p', gen: m.gens[gk], src: o.spec, viaGF: true}
+		for _, t := range []table{keep, fresh} {
+			e := t[key]
+			if e == nil {
+				e = &entry{}
+				t[key] = e
+			}
+			e[0] = d
+		}
+	}
+	m.regenAlt = fresh
+	m.setTable(keep, "kept")
+}
+
+// setTable installs the table chosen after a defgeneric.
+func (m *model) setTable(t table, how string) {
+	old := m.t
+	m.t = t
+	for k, e := range old {
+		for s, d := range e {
+			if d == nil {
+				continue
+			}
+			if ne := t[k]; ne == nil || ne[s] != d {
+				m.gone[d.tag(k)] = "wiped"
+			}
+		}
+	}
+	for k, e := range t {
+		for _, d := range e {
+			if d != nil {
+				delete(m.gone, d.tag(k))
+			}
+		}
+	}
+	for k := range m.firstSrc {
+		if t[k] == nil {
+			delete(m.firstSrc, k)
+		}
+	}
+	for k, e := range t {
+		if _, has := m.firstSrc[k]; !has {
+			for _, d := range e {
+				if d != nil {
+					m.firstSrc[k] = d.src
+					break
+				}
+			}
+		}
+	}
+	m.versions = append(m.versions, version{t: m.t.clone(), what: "defgeneric"})
+	m.memo = map[string]expect{}
+	m.updateDefault()
+	m.callsSinceMutation = 0
+}
+
+// chooseRegen: slots = the implementation's method table ("p:fixnum" ...)
+// right after a defgeneric. It returns which admissible table it equals
+// ("kept", "fresh", "both") or "" when it equals neither.
+func (m *model) chooseRegen(slots []string) string {
+	same := func(t table) bool { return equalStrings(t.slots(), slots) }
+	k, f := same(m.t), same(m.regenAlt)
+	switch {
+	case k && f:
+		return "both"
+	case k:
+		return "kept"
+	case f:
+		m.versions = m.versions[:len(m.versions)-1]
+		m.setTable(m.regenAlt, "fresh")
+		return "fresh"
+	}
+	return ""
 }
 
 // updateDefault models a single-method fast path (only used by mutants: in
@@ -427,13 +914,14 @@ func (m *model) updateDefault() {
 		return
 	}
 	tag := e[0].tag(allT)
-	m.deflt = &expect{kind: exStrict, trace: []string{tag}, value: tag}
+	m.deflt = &expect{kind: exStrict, trace: []string{tag}, value: tag, classic: true, mayRun: map[string]bool{tag: true}}
+	m.deflt.applicable[0] = []string{tag}
 }
 
 // call returns what a call with the argument kinds must do.
 func (m *model) call(args string) expect {
 	m.callsSinceMutation++
-	cpls := m.cfg.cpls(args)
+	ca := parseCall(args)
 	if m.deflt != nil {
 		return *m.deflt
 	}
@@ -441,22 +929,22 @@ func (m *model) call(args string) expect {
 		if ex, has := m.memo[args]; has {
 			return ex
 		}
-		ex := dispatch(m.t, cpls, m.opts)
+		ex := dispatch(m.t, m.rc, ca, m.opts)
 		if ex.kind != exNone {
 			m.memo[args] = ex
 		}
 		return ex
 	}
-	return dispatch(m.t, cpls, m.opts)
+	return dispatch(m.t, m.rc, ca, m.opts)
 }
 
 // staleMatch looks for an EARLIER table version under which the reference
 // dispatch equals what was observed (used for the detail text only). It
 // returns the mutation kinds that the observation does not reflect.
 func (m *model) staleMatch(args string, obsTrace []string, obsValue string, obsErr, obsNoApplicable bool) (unreflected string, ok bool) {
-	cpls := m.cfg.cpls(args)
+	ca := parseCall(args)
 	for i := len(m.versions) - 2; 0 <= i; i-- {
-		ex := dispatch(m.versions[i].t, cpls, refOpts{})
+		ex := dispatch(m.versions[i].t, m.rc, ca, refOpts{})
 		match := false
 		switch ex.kind {
 		case exStrict:
@@ -465,6 +953,8 @@ func (m *model) staleMatch(args string, obsTrace []string, obsValue string, obsE
 			match = obsNoApplicable && len(obsTrace) == 0
 		case exLenient:
 			match = !obsErr && equalStrings(ex.trace, obsTrace)
+		case exError:
+			match = obsErr && equalStrings(ex.trace, obsTrace)
 		}
 		if match {
 			set := map[string]bool{}
